@@ -4,6 +4,7 @@ import Driver.Proto
 import Driver.OpsTopo
 import Driver.OpsCkt
 import Driver.OpsSess
+import Driver.OpsBasic
 open Driver
 
 def opGrid (args : List String) : String :=
@@ -43,6 +44,7 @@ def dispatch (line : String) : String :=
   | "topo" :: r => opTopo r
   | "ckt" :: r => opCkt r
   | "sess" :: r => opSess r
+  | "basic" :: r => opBasic r
   | _ => "bad-op"
 
 partial def loop (h : IO.FS.Stream) (out : IO.FS.Stream) : IO Unit := do
